@@ -48,11 +48,15 @@ static const char *cls(size_t need, size_t dmax, size_t len, int dnull, int vali
 /* ---- mb -> wide */
 /* split > 0 (mbsrtowcs_s only): the first split bytes of src (an incomplete character) have already been consumed into the state object by mbrtowc;
    the call continues from that state on the rest, as the standard function does */
+static unsigned char *uarea;
+static int g_unterm_mb;      /* the multibyte source is handed over without its terminator, its last byte in front of an inaccessible page (len ends the conversion) */
 static void t_mbstowcs(const char *src0, size_t dmax, size_t len, int dnull, int restart, int split) {
     const char *src = src0 + split;
     char cs[200], hx[80] = "", cb[140]; for (size_t i = 0; src0[i]; i++) sprintf(hx + 2 * i, "%02x", (unsigned char)src0[i]); if (!src0[0]) strcpy(hx, "-");
     const char *fn = restart ? "mbsrtowcs_s" : "mbstowcs_s";
-    snprintf(cs, sizeof cs, "%s %s %s %zu %zu %d %d", loc, fn, hx, dmax, len, dnull, split);
+    snprintf(cs, sizeof cs, "%s %s %s %zu %zu %d %d %d", loc, fn, hx, dmax, len, dnull, split, g_unterm_mb);
+    const char *given = src;
+    if (g_unterm_mb) { size_t nb = strlen(src); char *u = (char *)(uarea + 2 * PG) - nb; memcpy(u, src, nb); given = u; }
     mbstate_t primed; memset(&primed, 0, sizeof primed);
     if (split) { wchar_t t; if (mbrtowc(&t, src0, split, &primed) != (size_t)-2) return; }   /* not an incomplete character in this locale: no such history */
     /* reference */
@@ -64,13 +68,13 @@ static void t_mbstowcs(const char *src0, size_t dmax, size_t len, int dnull, int
     wchar_t *dest = dnull ? NULL : dest_at(dmax, sizeof(wchar_t));
     if (dest) for (size_t i = 0; i < dmax; i++) dest[i] = 0x5a5a;
     size_t ret = 0x7777; int rc = 0, faulted = 0; h_n = 0; errno = 84; n_calls++;   /* an earlier call may have left errno set: results must not depend on it */
-    mbstate_t ps = primed; const char *srcp = src;
+    mbstate_t ps = primed; const char *srcp = given;
     if (sigsetjmp(jb, 1) == 0) { armed = 1;
-        rc = restart ? f_mbsrtowcs(&ret, dest, dnull ? (dmax ? 64 : 0) : dmax, &srcp, len, &ps, BOSU) : f_mbstowcs(&ret, dest, dnull ? (dmax ? 64 : 0) : dmax, src, len, BOSU);   /* query form: dest NULL, dmax is 0 or only a limit */
+        rc = restart ? f_mbsrtowcs(&ret, dest, dnull ? (dmax ? 64 : 0) : dmax, &srcp, len, &ps, BOSU) : f_mbstowcs(&ret, dest, dnull ? (dmax ? 64 : 0) : dmax, given, len, BOSU);   /* query form: dest NULL, dmax is 0 or only a limit */
         armed = 0; } else faulted = 1;
     if (verbose) { printf("%s: rc=%d *retvalp=%zu handler=%d fault=%d  libc: full=%zd valid=%d need=%zu\n", fn, rc, ret, h_n, faulted, (ssize_t)full, valid, need); if (dest && !faulted) { printf("  dest:"); for (size_t i = 0; i < dmax; i++) printf(" %x", (unsigned)dest[i]); printf("\n"); } }
     if (faulted) { n_fault++; report(fn, "access-outside-the-space-available", "fault", cs); return; }   /* 'limited to the space available' is part of this property too */
-    cls(need, dmax, len, dnull, valid_prefix, cb); if (split) strcat(cb, ",continues-a-pending-character");
+    cls(need, dmax, len, dnull, valid_prefix, cb); if (split) strcat(cb, ",continues-a-pending-character"); if (g_unterm_mb) strcat(cb, ",source-ends-at-len-without-terminator");
     if (dnull) {
         if (valid && len >= full) { if (rc != 0 || ret != full) report(fn, "query-wrong-length", cb, cs); }
         else if (!valid_prefix && rc == 0) report(fn, "query-accepts-invalid-sequence", cb, cs);
@@ -91,7 +95,7 @@ static void t_mbstowcs(const char *src0, size_t dmax, size_t len, int dnull, int
         if (ret != need) { report(fn, "wrong-count", cb, cs); return; }
         for (size_t i = 0; i < need; i++) if (dest[i] != ref[i]) { report(fn, "wrong-characters", cb, cs); return; }
         if (dest[need] != 0) { report(fn, "not-terminated", cb, cs); return; }
-        if (restart && len <= dmax) { if (srcp != sp) report(fn, "wrong-source-pointer", cb, cs); }   /* sp: where libc left the pointer for the same len */
+        if (restart && len <= dmax && !g_unterm_mb) { if (srcp != sp) report(fn, "wrong-source-pointer", cb, cs); }   /* sp: where libc left the pointer for the same len */
     } else {
         if (rc == 0) { report(fn, "success-without-room-for-terminator", cb, cs); return; }
         if (dest[0] != 0) report(fn, "dest-not-cleared-on-no-space", cb, cs);
@@ -100,7 +104,6 @@ static void t_mbstowcs(const char *src0, size_t dmax, size_t len, int dnull, int
 /* ---- wide -> mb */
 /* unterm: the source is an array of exactly its characters with no terminator, flush against an inaccessible page; only used where len ends the
    conversion before a terminator would be looked at (single-byte characters, len <= their number), which is what the standard function allows */
-static unsigned char *uarea;
 static void t_wcstombs(const wchar_t *src, size_t dmax, size_t len, int dnull, int restart, int unterm) {
     char cs[200], hx[120] = "", cb[180]; size_t wl = wcslen(src); for (size_t i = 0; i < wl; i++) sprintf(hx + strlen(hx), "%x.", (unsigned)src[i]); if (!wl) strcpy(hx, "-");
     const char *fn = restart ? "wcsrtombs_s" : "wcstombs_s";
@@ -176,7 +179,10 @@ int main(int argc, char **argv) {
     /* "A>B": a history over locales: every converter is called once under locale A, then the enumeration runs under B */
     char first[64] = "", second[64]; snprintf(second, sizeof second, "%s", loc);
     if (strchr(loc, '>')) { snprintf(first, sizeof first, "%.*s", (int)(strchr(loc, '>') - loc), loc); snprintf(second, sizeof second, "%s", strchr(loc, '>') + 1); }
+    /* "P+T": process locale P through setlocale, the calling thread's locale T through uselocale: libc converts by the thread's locale */
+    char thr[64] = ""; if (strchr(loc, '+')) { snprintf(thr, sizeof thr, "%s", strchr(loc, '+') + 1); snprintf(second, sizeof second, "%.*s", (int)(strchr(loc, '+') - loc), loc); first[0] = 0; }
     if (!setlocale(LC_ALL, first[0] ? first : second)) { fprintf(stderr, "cannot set locale %s\n", loc); return 2; }
+    if (thr[0]) { locale_t nl = newlocale(LC_ALL_MASK, thr, (locale_t)0); if (!nl) { fprintf(stderr, "cannot create locale %s\n", thr); return 2; } uselocale(nl); }
     void *L = dlopen(getenv("CAT_LIB"), RTLD_NOW | RTLD_GLOBAL);
     if (!L) { fprintf(stderr, "cannot load CAT_LIB\n"); return 2; }
     *(void **)&f_mbstowcs = dlsym(L, "_mbstowcs_s_chk"); *(void **)&f_mbsrtowcs = dlsym(L, "_mbsrtowcs_s_chk"); *(void **)&f_wcstombs = dlsym(L, "_wcstombs_s_chk");
@@ -197,7 +203,7 @@ int main(int argc, char **argv) {
     static const char *MB[] = { "a", "\xc3\xa9", "\xe2\x82\xac", "\xf0\x9f\x98\x80", "\x80", "\xc3", "\xed\xa0\x80", "\xf5" };
     static const wchar_t WC[] = { L'a', 0xe9, 0x20ac, 0x1f600, 0xd800, 0x110000 };
     if (replay) {
-        verbose = 1; const char *fn = argv[3]; size_t dmax = atol(argv[5]), len = atol(argv[6]); int dnull = atoi(argv[7]); int extra = argc > 8 ? atoi(argv[8]) : 0;
+        verbose = 1; const char *fn = argv[3]; size_t dmax = atol(argv[5]), len = atol(argv[6]); int dnull = atoi(argv[7]); int extra = argc > 8 ? atoi(argv[8]) : 0; g_unterm_mb = argc > 9 ? atoi(argv[9]) : 0;
         if (!strncmp(fn, "mb", 2)) { char s[64]; int n = 0; if (strcmp(argv[4], "-")) for (; argv[4][2 * n]; n++) { unsigned v; sscanf(argv[4] + 2 * n, "%2x", &v); s[n] = v; } s[n] = 0; t_mbstowcs(s, dmax, len, dnull, !strcmp(fn, "mbsrtowcs_s"), extra); }
         else { wchar_t w[32]; int n = 0; char *t = strdup(argv[4]); if (strcmp(t, "-")) for (char *p = strtok(t, "."); p; p = strtok(NULL, ".")) w[n++] = strtoul(p, 0, 16); w[n] = 0;
                if (!strcmp(fn, "wcrtomb_s")) t_wc1(w[0], dmax, dnull, 0); else if (!strcmp(fn, "wctomb_s")) t_wc1(w[0], dmax, dnull, 1); else t_wcstombs(w, dmax, len, dnull, !strcmp(fn, "wcsrtombs_s"), extra); }
@@ -227,6 +233,7 @@ int main(int argc, char **argv) {
                 int dup = 0; for (int k = 0; k < di; k++) if (dms[k] == dms[di]) dup = 1; for (int k = 0; k < li; k++) if (lens[k] == lens[li]) dup = 1; if (dup) continue;
                 t_mbstowcs(s, dms[di], lens[li], 0, r, 0);
                 if (di == 0) { t_mbstowcs(s, 0, lens[li], 1, r, 0); t_mbstowcs(s, 64, lens[li], 1, r, 0); }
+                if (nc && bytes == (size_t)nc && ninv == 0 && di == 0 && li == 0) { g_unterm_mb = 1;      /* single-byte characters only: with multibyte ones libc itself looks beyond the len characters */ for (size_t dmx = nch + 1; dmx <= nch + 2; dmx++) t_mbstowcs(s, dmx, nch, 0, r, 0); g_unterm_mb = 0; }
                 if (r && nc) { size_t fb = strlen(MB[c % 8]);      /* histories: 1..3 bytes of the first unit already pending in the state object */
                     for (size_t j = 1; j < fb; j++) { t_mbstowcs(s, dms[di], lens[li], 0, 1, (int)j); if (di == 0) { t_mbstowcs(s, 0, lens[li], 1, 1, (int)j); t_mbstowcs(s, 64, lens[li], 1, 1, (int)j); } } }
             }
@@ -250,6 +257,10 @@ int main(int argc, char **argv) {
         }
     }
     if (shard == 0) for (int k = 0; k < 6; k++) for (size_t dmax = 1; dmax <= 6; dmax++) for (int which = 0; which < 2; which++) { t_wc1(WC[k], dmax, 0, which); }
+    /* wchar_t values beyond U+10FFFF: glibc's UTF-8 converter still encodes them, in 4, 5 and 6 bytes (MB_CUR_MAX is 6) */
+    if (shard == 0) { static const wchar_t BIGW[] = { 0x110000, 0x1fffff, 0x200000, 0x3ffffff, 0x4000000, 0x7fffffff, (wchar_t)0x80000000, (wchar_t)-1 };
+        for (int k = 0; k < 8; k++) for (size_t dmax = 1; dmax <= 9; dmax++) for (int which = 0; which < 2; which++) t_wc1(BIGW[k], dmax, 0, which);
+        for (int k = 0; k < 8; k++) { wchar_t w[3] = { 'a', BIGW[k], 0 }; for (size_t dmax = 1; dmax <= 9; dmax++) for (int r = 0; r < 2; r++) t_wcstombs(w, dmax, 8, 0, r, 0); } }
     for (int i = 0; i < nsig; i++) printf("{\"t\":\"viol\",\"sig\":\"%s\",\"n\":%ld,\"case\":\"%s\"}\n", sigs[i], sigcnt[i], sigcase[i]);
     printf("{\"t\":\"stat\",\"locale\":\"%s\",\"calls\":%ld,\"faulted_left_to_C01\":%ld,\"violating\":%ld}\n", loc, n_calls, n_fault, n_viol);
     return 0;
